@@ -24,6 +24,7 @@ class OutsideSubset(Exception):
 
 
 _counter = itertools.count()
+USED_SORTS: set = set()   # names of the opaque / union sorts touched while building the current path
 BINDERS: list = []   # bound variables of the enclosing quantifiers / comprehensions (innermost last)
 
 
@@ -177,6 +178,7 @@ class Opaque(Sort):
     self._lits = {}
 
   def z3(self):
+    USED_SORTS.add(self.name)
     if self.name not in Opaque._cache:
       Opaque._cache[self.name] = z3.DeclareSort(self.name)
     return Opaque._cache[self.name]
@@ -418,6 +420,7 @@ class Union(Sort):
     raise KeyError(fname)
 
   def z3(self):
+    USED_SORTS.add(self.name)
     if self.name not in Union._cache:
       d = z3.Datatype(self.name)
       for c in self.ctors.values():
